@@ -52,7 +52,7 @@ CFG = dict(
          "envelopes outstanding per destination, compared with the direct-connection outcomes; free-running stress (3..10 peers, one goroutine "
          "per sender, paced and bursting) judged by the delivery predicates; a sample of lock-step scenarios (thorough: ~500) on which the "
          "reduced and the full exploration of the model are compared outcome set by outcome set; writer faults: a Write that hands the envelope to the peer and THEN returns an error (directly, after having been blocked, in a "
-         "burst), with every failed conn.Write call observed and compared with the model and a tick of virtual time at every step (at most "
+         "burst), with every failed conn.Write call observed and compared with the model and, after the observation of every step, 150 ms of virtual time in which nothing may happen (recorded as a step of its own if it does) (at most "
          "once counts the hand-overs whose Write failed); every envelope shape: all 288 combinations of body (token / none / empty / 64 KiB), status (none / code / code+message+details), trailer "
          "(none / empty / metadata), reset (none / RST_STREAM / empty type / other type), request headers, on attached, return-route and "
          "dial-on-demand paths, compared whole (proto.Equal) modulo destination, route record and return route; the server's reply rule: the real Server answering requests whose route record has 0..4 hops (unary reply, error reply for undecodable "
